@@ -112,6 +112,7 @@ type sub struct {
 	joiner      bool // mode joinrace: subscribes while the writer is running
 	startAtOp   int  // joiner: writer step at which Subscribe is called
 	launched    int32
+	joinState   int32 // perturbation only: 1 registered, 2 walk reached its first insert
 	callTick    int64 // joiner: logical tick just before Subscribe was called
 	enteredTick int64 // joiner: logical tick when its sender reached the gate (registration is over by then)
 	pattern     int
@@ -231,8 +232,11 @@ type trial struct {
 
 	lastGen int // generation of the last sentinels written
 
-	tick        int64 // logical clock (mode joinrace)
-	activeWalks int32 // joiners between subscribe.walk.begin and subscribe.walk.end
+	tick        int64    // logical clock (mode joinrace)
+	activeWalks int32    // joiners between subscribe.walk.begin and subscribe.walk.end
+	pendingRegs int32    // joiners registered whose walk has not reached its first insert
+	walkers     sync.Map // goroutine id -> joiner whose walk runs on it
+	spin        uint32
 	rdvMu       sync.Mutex
 	rdvWaiting  map[interface{}]*int32
 	rdvMet      int64
@@ -724,33 +728,68 @@ func parkedIn(block string) (pkg string, parked bool) {
 	return "", true
 }
 
-// rendezvous lines up two goroutines that reach the same key: the first waits
-// (spinning, at most ~60 us) for a second one; both then go on together.
-func (t *trial) rendezvous(key interface{}) {
-	t.rdvMu.Lock()
-	if f := t.rdvWaiting[key]; f != nil {
-		delete(t.rdvWaiting, key)
-		atomic.StoreInt32(f, 1)
+// gid returns the id of the calling goroutine (used only to tell a joiner's
+// walk goroutine from the other producers when perturbing the schedule).
+func gid() uint64 {
+	var b [64]byte
+	n := runtime.Stack(b[:], false)
+	var id uint64
+	for _, c := range b[len("goroutine "):n] {
+		if c < '0' || c > '9' {
+			break
+		}
+		id = id*10 + uint64(c-'0')
+	}
+	return id
+}
+
+func (t *trial) walkerArrived(s *sub) {
+	if atomic.CompareAndSwapInt32(&s.joinState, 1, 2) {
+		atomic.AddInt32(&t.pendingRegs, -1)
+	}
+}
+
+// lineUp is the perturbation of mode joinrace at coalesce.insert.checked: the
+// walk goroutine of a joiner waits (spinning, at most ~300 us) at each of its
+// inserts until another producer is about to insert into the same queue; the
+// two then go on at the same instant. Other producers never wait.
+func (t *trial) lineUp(q interface{}) {
+	if v, ok := t.walkers.Load(gid()); ok {
+		t.walkerArrived(v.(*sub))
+		var flag int32
+		t.rdvMu.Lock()
+		if t.rdvWaiting == nil {
+			t.rdvWaiting = map[interface{}]*int32{}
+		}
+		t.rdvWaiting[q] = &flag
 		t.rdvMu.Unlock()
-		atomic.AddInt64(&t.rdvMet, 1)
+		deadline := time.Now().Add(300 * time.Microsecond)
+		for n := 0; atomic.LoadInt32(&flag) == 0; n++ {
+			if n%64 == 63 && time.Now().After(deadline) {
+				t.rdvMu.Lock()
+				if t.rdvWaiting[q] == &flag {
+					delete(t.rdvWaiting, q)
+				}
+				t.rdvMu.Unlock()
+				return
+			}
+		}
 		return
 	}
-	var flag int32
-	if t.rdvWaiting == nil {
-		t.rdvWaiting = map[interface{}]*int32{}
+	t.rdvMu.Lock()
+	f := t.rdvWaiting[q]
+	if f != nil {
+		delete(t.rdvWaiting, q)
 	}
-	t.rdvWaiting[key] = &flag
 	t.rdvMu.Unlock()
-	deadline := time.Now().Add(60 * time.Microsecond)
-	for n := 0; atomic.LoadInt32(&flag) == 0; n++ {
-		if n%64 == 63 && time.Now().After(deadline) {
-			t.rdvMu.Lock()
-			if t.rdvWaiting[key] == &flag {
-				delete(t.rdvWaiting, key)
-			}
-			t.rdvMu.Unlock()
-			return
-		}
+	if f == nil {
+		return
+	}
+	atomic.StoreInt32(f, 1)
+	atomic.AddInt64(&t.rdvMet, 1)
+	// The waiter needs a few dozen nanoseconds to notice: vary the head start.
+	for n := atomic.AddUint32(&t.spin, 0x9E3779B9) >> 23; n > 0; n-- {
+		atomic.LoadInt32(f)
 	}
 }
 
@@ -915,31 +954,50 @@ func (t *trial) run() (sus *suspicion, judged bool) {
 	pert.Only = func(name string, _ interface{}) bool { return name == "subscribe.dequeue" }
 	pert.OnPoint = func(name string, key interface{}) {
 		switch name {
-		case "subscribe.walk.begin", "subscribe.walk.end":
-			if sr, ok := key.(*pb.SubscribeRequest); ok {
-				t.byReqMu.RLock()
-				s := t.byReq[sr]
-				t.byReqMu.RUnlock()
-				if s == nil {
-					return
-				}
-				if name == "subscribe.walk.end" {
-					atomic.StoreInt32(&s.walkEnd, 1)
-				}
-				if s.joiner {
-					if name == "subscribe.walk.begin" {
-						atomic.AddInt32(&t.activeWalks, 1)
-					} else {
-						atomic.AddInt32(&t.activeWalks, -1)
+		case "subscribe.registered", "subscribe.walk.begin", "subscribe.walk.end":
+			sr, ok := key.(*pb.SubscribeRequest)
+			if !ok {
+				return
+			}
+			t.byReqMu.RLock()
+			s := t.byReq[sr]
+			t.byReqMu.RUnlock()
+			if s == nil {
+				return
+			}
+			if name == "subscribe.walk.end" {
+				atomic.StoreInt32(&s.walkEnd, 1)
+			}
+			if !s.joiner {
+				return
+			}
+			// Perturbation for mode joinrace only (see lineUp).
+			switch name {
+			case "subscribe.registered":
+				atomic.StoreInt32(&s.joinState, 1)
+				atomic.AddInt32(&t.pendingRegs, 1)
+			case "subscribe.walk.begin":
+				t.walkers.Store(gid(), s)
+				atomic.AddInt32(&t.activeWalks, 1)
+			case "subscribe.walk.end":
+				t.walkers.Delete(gid())
+				atomic.AddInt32(&t.activeWalks, -1)
+				t.walkerArrived(s)
+			}
+		case "cache.update.written":
+			// A joiner has just registered: hold the feed of this update for a
+			// moment so that the joiner's walk reaches its first insert.
+			if t.mode == "joinrace" && atomic.LoadInt32(&t.pendingRegs) > 0 {
+				deadline := time.Now().Add(300 * time.Microsecond)
+				for n := 0; atomic.LoadInt32(&t.pendingRegs) > 0; n++ {
+					if n%64 == 63 && time.Now().After(deadline) {
+						break
 					}
 				}
 			}
 		case "coalesce.insert.checked":
-			// While a joiner walks the cache, producers inserting into the same
-			// queue are lined up so that the walk and the feed offer at the same
-			// instant (perturbation only).
 			if t.mode == "joinrace" && atomic.LoadInt32(&t.activeWalks) > 0 {
-				t.rendezvous(key)
+				t.lineUp(key)
 			}
 		}
 	}
@@ -1142,7 +1200,9 @@ func (t *trial) run() (sus *suspicion, judged bool) {
 			}
 			r.Count("stalls_until_writer_done_released", 1)
 			s.release()
-			ok := t.waitCond(stuckGrace, func() bool { return s.isDone() || t.hasSentinel(s, 0) })
+			ok := t.waitCond(stuckGrace, func() bool {
+				return s.isDone() || (t.hasSentinel(s, 0) && (!s.joiner || hasSync(s)))
+			})
 			if !ok {
 				t.viol("released-subscriber-starved", fmt.Sprintf("subscriber %d was released after the writer had finished but did not receive the rest of its backlog (sentinel missing) for %v", s.idx, stuckGrace), map[string]interface{}{"responses_received": s.stream.NSent()})
 				skipMode[t.mode] = true
@@ -1287,8 +1347,11 @@ func (t *trial) run() (sus *suspicion, judged bool) {
 		}
 	}
 	r.Count("stats_callbacks_observed", atomic.LoadInt64(&t.cbCalls))
-	if mq := atomic.LoadInt64(&t.cbMaxQ); mq+1 > int64(maxBound) {
-		t.viol("backlog-bound", fmt.Sprintf("the statistics callback reported a queue of %d entries (+1 just dequeued) but no subscriber of this server can have more than %d pending (one per offered leaf incarnation + one per delete notification + sync marker)", mq, maxBound), nil)
+	if t.mode == "joinrace" {
+		r.Count("joinrace_producer_pairs_lined_up_at_insert", atomic.LoadInt64(&t.rdvMet))
+	}
+	if mq := atomic.LoadInt64(&t.cbMaxQ); mq > int64(maxBound) {
+		t.viol("backlog-bound", fmt.Sprintf("the statistics callback reported a queue of %d entries but no subscriber of this server can have more than %d pending (one per offered leaf incarnation + one per delete notification + sync marker)", mq, maxBound), nil)
 		fullyJudged = false
 	}
 	if el := time.Since(t.start); t.timeout == 0 && el < defaultTimeoutGuard {
@@ -1362,7 +1425,8 @@ func (t *trial) judge(s *sub) bool {
 	msgs := s.stream.Sent()
 	// Everything offered was delivered: the last sentinel written (the late
 	// subscriber: its sync_response) has arrived.
-	full := !s.isDone() && ((s.late && hasSync(s)) || (!s.late && t.hasSentinel(s, t.lastGen)))
+	// (A joiner's walk may end after the sentinel was offered: its sync_response too.)
+	full := !s.isDone() && ((s.late && hasSync(s)) || (!s.late && t.hasSentinel(s, t.lastGen) && (!s.joiner || hasSync(s))))
 	type acc struct {
 		sum, dels int
 		lastDel   bool
@@ -1455,7 +1519,7 @@ func (t *trial) judge(s *sub) bool {
 			if postIncs[pm.key] == nil {
 				postIncs[pm.key] = map[int]bool{}
 			}
-			if postIncs[pm.key][inc] {
+			if postIncs[pm.key][inc] && !(s.joiner && s.walkUnsure) {
 				fail("not-coalesced-after-release", fmt.Sprintf("response #%d: after release leaf %v (incarnation %d) was delivered more than once although nothing was written in between", i, l.path, inc), nil)
 				return false
 			}
@@ -1487,6 +1551,26 @@ func (t *trial) judge(s *sub) bool {
 			}
 		case !s.covers(l.path):
 			continue
+		case s.joiner:
+			// Subscribed while the writer was running: the leaf is visited once by
+			// the walk if it existed throughout; updates invoked after its sender
+			// was seen running were certainly offered, updates that had returned
+			// before Subscribe was called certainly not.
+			nlo, nhi := 0, 0
+			for _, tk := range l.updTicks {
+				if tk[0] > s.enteredTick {
+					nlo++
+				}
+				if tk[1] > s.callTick {
+					nhi++
+				}
+			}
+			if l.prefInc > 0 {
+				walk = 1
+				lo, hi = 1+nlo, 1+nhi
+			} else if len(l.updTicks) > 0 {
+				lo, hi = max(1, nlo), nhi+1 // created meanwhile: by the walk, the feed, or both
+			}
 		default:
 			if l.prefInc > 0 {
 				walk = s.walkHits(l.path)
@@ -1526,6 +1610,9 @@ func (t *trial) judge(s *sub) bool {
 			return false
 		}
 	}
+	if full && s.joiner {
+		r.Count("joiner_logs_fully_delivered", 1)
+	}
 	if full {
 		r.Count("subscriber_logs_fully_delivered", 1)
 		if s.late {
@@ -1549,8 +1636,16 @@ func (t *trial) judge(s *sub) bool {
 			continue
 		}
 		att++
-		if q+1 > int64(b) {
-			fail("backlog-bound", fmt.Sprintf("when response #%d was dequeued its queue still held %d entries (so %d before the dequeue), more than the %d the statement allows (one per offered leaf incarnation + one per delete notification + sync marker; K=%d updates were written)", i, q, q+1, b, t.K), map[string]interface{}{"bound": b, "queue_size_reported": q})
+		// The size is read after the dequeue, not atomically with it: while the
+		// writer runs the dequeued leaf may already have been offered again, so
+		// only the size itself is bounded. Once nothing is inserted any more
+		// (after release) the entry just dequeued counts as well.
+		before := q
+		if postRelease(i) && !(s.joiner && s.walkUnsure) {
+			before = q + 1
+		}
+		if before > int64(b) {
+			fail("backlog-bound", fmt.Sprintf("when response #%d was dequeued its queue held %d entries (%d counting the one just dequeued, nothing else being inserted at that time), more than the %d the statement allows (one per offered leaf incarnation + one per delete notification + sync marker; K=%d updates were written)", i, q, q+1, b, t.K), map[string]interface{}{"bound": b, "queue_size_reported": q, "counted": before})
 			return false
 		}
 	}
@@ -1675,6 +1770,8 @@ func body(r *vlib.Run) {
 	r.ForTrials("stall", r.N(240, 12000), func(trial int, _ *rand.Rand) { runEscalating(r, "stall", trial) })
 	r.ForTrials("timeout", r.N(64, 2400), func(trial int, _ *rand.Rand) { runEscalating(r, "timeout", trial) })
 	r.ForTrials("syncstall", r.N(16, 320), func(trial int, _ *rand.Rand) { runEscalating(r, "syncstall", trial) })
+	r.ForTrials("idlesync", r.N(16, 320), func(trial int, _ *rand.Rand) { runEscalating(r, "idlesync", trial) })
+	r.ForTrials("joinrace", r.N(160, 4800), func(trial int, _ *rand.Rand) { runEscalating(r, "joinrace", trial) })
 }
 
 func postMerge(tier string, c map[string]int64) []string {
@@ -1688,6 +1785,8 @@ func postMerge(tier string, c map[string]int64) []string {
 		"clause5_blocked_send_ended_with_timeout_error",
 		"clause5_idle_subscriber_survived_3x_timeout_and_got_next_update",
 		"clause5_trials_nobody_terminated_under_default_timeout",
+		"clause5_subscriber_idle_right_after_sync_survived_4x_timeout_and_got_next_update",
+		"joiner_logs_fully_delivered",
 		"late_subscriber_snapshots_checked",
 	} {
 		if c[k] == 0 {
@@ -1700,7 +1799,7 @@ func postMerge(tier string, c map[string]int64) []string {
 func main() {
 	vlib.Main(&vlib.Spec{
 		ID:   "C08",
-		Rule: "Each trial: real cache + one subscribe.Server (WithStats, WithClientStatsTest), 2-5 STREAM subscriptions over in-memory streams (one path each from {root,*,a,b,a/*,b/*,*/*}, some updates_only, some updates_only with 2-3 overlapping paths), stall pattern per subscriber in {never, one message (released at a seeded writer step), until-writer-done, permanent} with the held response at a seeded position around the snapshot/sync; one writer goroutine issues K in 10..2000 unique-valued updates over D in 1..50 leaves (single and multi-update notifications, leaf and branch deletes with re-adds), then sentinels; GOMAXPROCS in {2,4,16}; seeded delays at subscribe.dequeue. Modes: stall (default one-minute timeout: clauses 1-4, nobody terminated), timeout (WithTimeout 50-200 ms: permanent stalls must end with the timeout error, idle subscribers survive 3x the timeout), syncstall (the blocked response is the sync_response, timeout 20 ms). A late subscriber joins at the end of every trial. A trial is distinct non-trivial when at least one subscriber was really parked inside Send and all subscriber logs were judged; distinct by (mode, D, K, notifications, per-subscriber paths/pattern/gate).",
+		Rule: "Each trial: real cache + one subscribe.Server (WithStats, WithClientStatsTest), 2-5 STREAM subscriptions over in-memory streams (one path each from {root,*,a,b,a/*,b/*,*/*}, some updates_only, some updates_only with 2-3 overlapping paths), stall pattern per subscriber in {never, one message (released at a seeded writer step), until-writer-done, permanent} with the held response at a seeded position around the snapshot/sync; one writer goroutine issues K in 10..2000 unique-valued updates over D in 1..50 leaves (single and multi-update notifications, leaf and branch deletes with re-adds), then sentinels; GOMAXPROCS in {2,4,16}; seeded delays at subscribe.dequeue. Modes: stall (default one-minute timeout: clauses 1-4, nobody terminated), timeout (WithTimeout 50-200 ms: permanent stalls must end with the timeout error, idle subscribers survive 3x the timeout), syncstall (the blocked response is the sync_response, timeout 20 ms), idlesync (WithTimeout 50-200 ms, nobody stalled: nothing is written for 4x the timeout right after the sync_responses of the initial and of the late subscriber, then a fresh update must reach everybody), joinrace (K in 200..2000 updates hammer D in 1..3 existing leaves while 3-6 plain subscriptions START at seeded writer steps, each held from its very first response until the writer is done; producers reaching coalesce.insert.checked while a joiner walks are lined up pairwise; offers are bounded by logical call/return ticks; after release each leaf must come at most once and the backlog bound must hold). A late subscriber joins at the end of every trial. A trial is distinct non-trivial when at least one subscriber was really parked inside Send and all subscriber logs were judged; distinct by (mode, D, K, notifications, per-subscriber paths/pattern/gate).",
 		Assumptions: []string{
 			"one writer goroutine, strictly increasing timestamps and unique values: every update is accepted and never suppressed, so offers are known exactly",
 			"all initial subscriptions are registered and their snapshot walk is over before the first write of the writer phase (sync_response delivered, or sender parked in the gate and walk end observed; if the walk-end point is not observed the oracle tolerates one walk offer more or less on leaves created/deleted later)",
